@@ -495,10 +495,14 @@ class DecoderAnalysis:
                     add(facts, v - xl)
             return facts
 
-        def check(bb, kind, goals, desc, facts):
+        bases = {}
+
+        def check(bb, kind, goals, desc, facts, base=None):
             lins = [f for f in facts.values() if isinstance(f, Lin)] + list(lz.intrinsic.values())
             ok = all(g is not None and (g is True or prove(g, lins)) for g in goals)
             k = (bb, kind, desc)
+            if base is not None:
+                bases[k] = base
             prev = obligations.get(k)
             obligations[k] = ok if prev is None else (prev and ok)
 
@@ -527,7 +531,7 @@ class DecoderAnalysis:
                     if e[0] == "bin" and e[1] == "Lt":
                         i, L = lz.lin(e[2]), lz.lin(e[3])
                         g = (L - i - Lin(1)) if i is not None and L is not None else None
-                        check(bb, "bounds", [g], "index %s < %s" % (show(e[2])[:60], show(e[3])[:40]), facts)
+                        check(bb, "bounds", [g], "index %s < %s" % (show(e[2])[:60], show(e[3])[:40]), facts, base=(e[3][1] if e[3][0] == "len" else None))
                     else:
                         check(bb, "bounds", [None], "bounds check", facts)
                 if t["k"] == "call" and t["dest"] == [0, []] and exits is not None:
@@ -563,7 +567,7 @@ class DecoderAnalysis:
                 if e[0] == "bin" and e[1] == "Lt":
                     i, L = lz.lin(e[2]), lz.lin(e[3])
                     g = (L - i - Lin(1)) if i is not None and L is not None else None
-                    check(bb, "bounds", [g], "index %s < %s" % (show(e[2])[:60], show(e[3])[:40]), facts)
+                    check(bb, "bounds", [g], "index %s < %s" % (show(e[2])[:60], show(e[3])[:40]), facts, base=(e[3][1] if e[3][0] == "len" else None))
                 else:
                     check(bb, "bounds", [None], "bounds check", facts)
         out = []
@@ -572,7 +576,9 @@ class DecoderAnalysis:
             if ok:
                 n_ok += 1
             else:
-                out.append({"body": body.path, "bb": bb, "kind": kind, "desc": desc, "loc": body.loc(bb)})
+                out.append({"body": body.path, "bb": bb, "kind": kind, "desc": desc, "loc": body.loc(bb), "base": bases.get((bb, kind, desc))})
+        self.last_all = [{"bb": bb, "kind": kind, "desc": desc, "ok": ok, "base": bases.get((bb, kind, desc)), "loc": body.loc(bb)}
+                         for (bb, kind, desc), ok in sorted(obligations.items())]
         return out, {"obligations": len(obligations), "discharged": n_ok}
 
     # ------------------------------------------------------------------
@@ -591,7 +597,7 @@ class DecoderAnalysis:
                 L = Lin(n_self)      # indexing a [T; N]: the length is the type's
             r = range_of(idx)
             if r is None or L is None:
-                check(bb, "slice", [None], "%s[%s]" % (show(base)[:40], show(idx)[:80]), facts)
+                check(bb, "slice", [None], "%s[%s]" % (show(base)[:40], show(idx)[:80]), facts, base=base)
                 return
             kind, s, e = r
             goals = []
@@ -614,7 +620,7 @@ class DecoderAnalysis:
                 i = lz.lin(s)
                 goals = [None] if i is None else [L - i - Lin(1)]
                 d = "%s[%s]" % (show(base)[:30], show(s)[:50])
-            check(bb, "slice", goals, d, facts)
+            check(bb, "slice", goals, d, facts, base=base)
             return
         last = name.rsplit("::", 1)[-1]
         if name.startswith(("std::option::Option::", "std::result::Result::")) and last in ("unwrap", "expect", "unwrap_unchecked"):
